@@ -44,6 +44,16 @@ impl UnaryParser {
                         TokenType::Variable(variable)     => Ok(SmartCalcAstType::PrefixUnary(operator, Rc::new(SmartCalcAstType::Variable(variable.clone())))),
                         TokenType::Percent(percent)       => Ok(SmartCalcAstType::PrefixUnary(operator, Rc::new(SmartCalcAstType::Item(Rc::new(PercentItem(*percent)))))),
                         TokenType::Money(money, currency) => Ok(SmartCalcAstType::PrefixUnary(operator, Rc::new(SmartCalcAstType::PrefixUnary(operator, Rc::new(SmartCalcAstType::Item(Rc::new(MoneyItem(*money, currency.clone())))))))),
+                        TokenType::Operator('(') | TokenType::Operator('-') | TokenType::Operator('+') => {
+                            /* The operand is a parenthesis or carries its own sign */
+                            return match UnaryParser::parse(parser)? {
+                                SmartCalcAstType::None => {
+                                    parser.set_index(index_backup);
+                                    Err(("Unary works with number", 0, 0))
+                                },
+                                ast => Ok(SmartCalcAstType::PrefixUnary(operator, Rc::new(ast)))
+                            };
+                        },
                         _ => {
                             parser.set_index(index_backup);
                             return Err(("Unary works with number", 0, 0));
